@@ -128,6 +128,16 @@ func ExploreSchedWhole(c *Ctx, sc *Scenario) { exploreSched(c, sc, false) }
 
 func exploreSched(c *Ctx, sc *Scenario, split bool) {
 	res := c.Res
+	defer func() {
+		res.Extra["recursive_read_lock_acquisitions"] = float64(vsched.RecursiveReads)
+		if vsched.RecursiveReads > 0 {
+			var sites []string
+			for s, n := range vsched.RecursiveReadSites {
+				sites = append(sites, fmt.Sprintf("%s x%d", s, n))
+			}
+			res.Note("a thread re-acquired an RW lock it already held in read mode (%d times; sites: %s): under sync.RWMutex's writer preference this can deadlock, the scheduler models no writer preference", vsched.RecursiveReads, strings.Join(sites, "; "))
+		}
+	}()
 	if b, err := os.ReadFile("/verif/.build/ov/warnings.txt"); err == nil && len(b) > 0 {
 		for _, w := range strings.Split(string(b), "\n") {
 			res.Note("not under the scheduler's control: %s", w)
